@@ -23,7 +23,12 @@ CONSTANTS Slots,        \* patched (target, attr) keys of leaf specs
           MaxDepth,     \* max nesting of conversions
           MaxConv,      \* max conversions started in a behaviour
           MaxBuilds,    \* max function-body builds per behaviour
-          LifoRestore   \* TRUE: restore in reverse order (the code); FALSE: self-test variant
+          LifoRestore,  \* TRUE: restore in reverse order (the code); FALSE: self-test variant
+          Inherit,      \* function: slot |-> the slot it INHERITS its value from (a method a class gets from its
+                        \*   base, e.g. linen.MultiHeadAttention.__call__ from MultiHeadDotProductAttention): the
+                        \*   target's own namespace has no such entry before patching
+          SaveResolved  \* FALSE: the code (an inherited attribute is restored by deleting the override);
+                        \*   TRUE: deviation -- getattr() result saved and written back with setattr
 
 VARIABLES attr, fn, x64, x64init, inBuild, ctxs, pc, exc, skip, nconv, nbuild, serial, log
 vars == <<attr, fn, x64, x64init, inBuild, ctxs, pc, exc, skip, nconv, nbuild, serial, log>>
@@ -31,7 +36,9 @@ view == <<attr, fn, x64, x64init, inBuild, ctxs, pc, exc, skip, nconv, nbuild>>
 
 NLeaf == Len(LeafSpecs)
 FnSet == {FnSlots[i] : i \in 1..Len(FnSlots)}
-Orig(s) == IF s \in Missing THEN <<"missing">> ELSE <<"orig">>
+Orig(s) == IF s \in Missing THEN <<"missing">> ELSE IF s \in DOMAIN Inherit THEN <<"inherit", Inherit[s]>> ELSE <<"orig">>
+\* what getattr(target, attr) returns: an inherited slot resolves through its base
+Resolve(a, s) == IF a[s][1] = "inherit" THEN a[a[s][2]] ELSE a[s]
 Attr0 == [s \in Slots |-> Orig(s)]
 Fn0 == [f \in FnSet |-> [patched |-> FALSE, count |-> 0]]
 
@@ -139,7 +146,7 @@ ApplyLeafSpec ==
     /\ pc.j <= Len(LeafSpecs[pc.i])
     /\ LET s == LeafSpecs[pc.i][pc.j] IN
        /\ attr' = [attr EXCEPT ![s] = <<"sub", pc.i, pc.j, serial>>]
-       /\ ctxs' = [ctxs EXCEPT ![Len(ctxs)].applied = Append(@, <<s, attr[s]>>)]
+       /\ ctxs' = [ctxs EXCEPT ![Len(ctxs)].applied = Append(@, <<s, IF SaveResolved THEN Resolve(attr, s) ELSE attr[s]>>)]
     /\ pc' = PC("leaf", pc.i, pc.j + 1)
     /\ UNCHANGED <<fn, x64, x64init, inBuild, exc, skip, nconv, nbuild, serial, log>>
 
@@ -305,6 +312,9 @@ Spec == Init /\ [][Next]_vars
 ---------------------------------------------------------------------------
 (* Properties *)
 Pristine == attr = Attr0 /\ fn = Fn0
+
+\* every attribute RESOLVES to the object it resolved to before (what a user of the library observes)
+ResolvesAsBefore == pc.s = "idle" => \A s \in Slots : Resolve(attr, s) = Resolve(Attr0, s)
 
 \* C13: at quiescence the process is as it was found
 Quiescent == pc.s = "idle" => (Pristine /\ x64 = x64init /\ inBuild = 0 /\ ctxs = <<>>)
